@@ -45,7 +45,7 @@ func (Engine) Generate(cfg simkit.RunConfig) (any, bool) {
 	switch cfg.Mode {
 	case "", "txn":
 		return genTxn(cfg, "M"), true
-	case "txn-R":
+	case "txn-R", "pipe-R":
 		return genTxn(cfg, "R"), true
 	case "locks":
 		return genLocks(cfg, "M"), true
@@ -186,6 +186,29 @@ func (Engine) Execute(t *testing.T, cfg simkit.RunConfig, scenario any) *simkit.
 	}
 	for _, v := range w.mon.violations() {
 		c.fail(v[0], v[1], "%s", v[2])
+	}
+	if s.Aborted == "max-events" {
+		// liveness: the event budget is some ten times what a run needs; if one request shape of one
+		// client makes up most of the events, that client is in a request storm
+		count := map[string]int{}
+		for _, r := range trace {
+			count[fmt.Sprintf("client %d %s", r.Client, r.Type)]++
+		}
+		for _, k := range sortedKeys(count) {
+			if n := count[k]; n*2 > len(trace) && n > 5000 {
+				var last *simkit.RPCRecord
+				for _, r := range trace {
+					if fmt.Sprintf("client %d %s", r.Client, r.Type) == k && r.Executed {
+						last = r
+					}
+				}
+				ex := ""
+				if last != nil {
+					ex = "; e.g. " + fmtRPC(w, last)
+				}
+				c.fail("request-storm", strings.Fields(k)[2], "the run used up its budget of %d events: %d of its %d requests are %s requests of %s (keyspace %s), %d fault(s) injected in the whole run%s", s.Limits.MaxEvents, n, len(trace), strings.Fields(k)[2], k[:strings.LastIndex(k, " ")], w.kss[sc.Clients[last.Client]], len(w.net.Fired), ex)
+			}
+		}
 	}
 	judged := 0
 	if s.Aborted == "" {
